@@ -109,6 +109,10 @@ _public_ int m_mod_set_batch_timeout(m_mod_t *mod, uint64_t timeout_ns) {
     }
     mod->batch.timer.clock_id = CLOCK_MONOTONIC;
     mod->batch.timer.ns = timeout_ns;
+    if (timeout_ns == 0 && mod->batch.len == SIZE_MAX) {
+        // Timed batching was the only batching in effect: no batching at all from now on
+        mod->batch.len = 0;
+    }
     if (timeout_ns != 0) {
         // If batching by size is disabled
         if (mod->batch.len == 0) {
